@@ -490,7 +490,7 @@ def run(ctx: Ctx) -> int:
     if ctx.quick:
         ctx.extra["templates"] = templatescheck.run(ctx, 3, ["a.html", "A.HTML", "a.css", "d", "d/x.css", "D/x.css"], [0, 1, 2], 25)
     else:
-        ctx.extra["templates"] = templatescheck.run(ctx, 4, ["a.html", "A.HTML", "a.css", "A.css", "d", "D", "d/x.css", "D/x.css", "d/x.html", "d.html", "d.html/y.css"], [0, 1, 2], 400)
+        ctx.extra["templates"] = templatescheck.run(ctx, 4, ["a.html", "A.HTML", "a.css", "A.css", "d", "D", "d/x.css", "d/x.html"], [0, 1, 2], 400)
     # ---- negative control: a run cut before the inventory must be rejected by TLC
     good = next((t for t in traces if t["ev"] and t["ev"][-1]["k"] == "exit"), None)
     if good is None:
